@@ -165,6 +165,7 @@ Lemma forced_S_genuine fs fuel this incs : forall p p',
 Proof.
   induction incs as [|n r IH]; intros p p' HI; cbn [forced_S]; [intros H; inversion H; subst; exact HI|].
   destruct (search fs (dirs p) (n, this, false)) as [f|]; [|apply IH; exact HI].
+  destruct (mem_path f (once p)); [apply IH; exact HI|].
   destruct (run_file_S fs fuel f p) as [p2|x] eqn:E; [|discriminate].
   apply IH. eapply run_file_S_genuine; [exact HI|exact E].
 Qed.
